@@ -58,7 +58,7 @@ func vJoinSetup(timed bool, closeInput bool, sink bool) *vJoinEnv {
 	if timed {
 		opts.Timeout = time.Duration(vNondetI64("timeout"))
 		vAssume(opts.Timeout > 0)
-		opts.TimeoutInaccuracy = 25
+		opts.TimeoutInaccuracy = []uint{25, 100}[vChoose("inacc", 2)] // 100: the ticker period equals the Timeout
 	}
 	e.t0 = vNow()
 	d, err := New(opts)
